@@ -1032,6 +1032,28 @@ class NodeCycleChecker(object):
             self.run(node=_c, seen=seen)
 
 
+class NodeDependencyChecker(object):
+    """
+    Visitor class that determines if a node depends (directly or indirectly) on another node.
+    """
+
+    def __init__(self, root_node):
+        self._root = root_node
+
+    def depends_on(self, other):
+        _stack, _seen = [self._root], set()
+        while _stack:
+            _node = _stack.pop()
+            if _node in _seen:
+                continue
+            _seen.add(_node)
+            for _c in _node.get_children():
+                if _c is other:
+                    return True
+                _stack.append(_c)
+        return False
+
+
 # -- Nexus
 
 
@@ -1105,6 +1127,10 @@ class Nexus(object):
             if existing_behavior == "fail":
                 raise ValueError("Node '{}' already exists.".format(node.name))
             if existing_behavior == "replace":
+                # refuse replacements that would make the graph cyclic *before* modifying the graph
+                for _parent in self._nodes[node.name].get_parents():
+                    if _parent is node or NodeDependencyChecker(node).depends_on(_parent):
+                        raise ValueError("Dependent node cycle detected ({} -> ... -> {})".format(node.name, _parent.name))
                 if add_children:
                     # add all dependent children to the nexus first
                     for _child in node.get_children():
@@ -1364,6 +1390,11 @@ class Nexus(object):
             raise ValueError(
                 "Cannot add dependency: the following nodes passed to " "`depends_on` do not exist: {}".format(", ".join(map(repr, _not_found)))
             )
+
+        # refuse dependencies that would make the graph cyclic *before* modifying the graph
+        for _dep in depends_on:
+            if _node is self.get(_dep) or NodeDependencyChecker(self.get(_dep)).depends_on(_node):
+                raise ValueError("Dependent node cycle detected ({} -> {} -> ... -> {})".format(name, _dep, name))
 
         # add dependent node `name` as a parent of each node in `depends_on`
         for _dep in depends_on:
